@@ -308,13 +308,15 @@ func (timeoutErr) Temporary() bool { return true }
 func (timeoutErr) Unwrap() error   { return errSink }
 
 type EnvWriter struct {
-	FailAt int // fail the k-th Write (1-based); 0 = never
-	Mode   int // how it fails: 0 (0, err); 1 (len(p), err) — everything was taken AND an error is reported; 2 (len(p)/2, timeout error)
-	Calls  int
-	Got    []byte   // concatenation of everything accepted
-	Chunks [][2]int // (offset into Got, len) per accepted call
-	Hook   func()
-	Rich   bool // the sink also has WriteString / ReadFrom
+	FailAt     int // fail the k-th Write (1-based); 0 = never
+	Mode       int // how it fails: 0 (0, err); 1 (len(p), err) — everything was taken AND an error is reported; 2 (len(p)/2, timeout error)
+	Calls      int
+	Got        []byte   // concatenation of everything accepted
+	Chunks     [][2]int // (offset into Got, len) per accepted call
+	Hook       func()
+	Rich       bool // the sink also has WriteString / ReadFrom / Flush
+	FlushFails bool // (Rich) its Flush method fails
+	FlushCalls int
 }
 
 // Sink is what the code under test is given: the writer itself or, with Rich, a wrapper that also offers WriteString and
@@ -329,6 +331,16 @@ func (w *EnvWriter) Sink() io.Writer {
 type envWriterRich struct{ *EnvWriter }
 
 func (r *envWriterRich) WriteString(s string) (int, error) { return r.Write([]byte(s)) }
+
+// Flush: sinks like *bufio.Writer have one.  Whether a buffered writer calls it is its own choice; if it does and the
+// call fails (FlushFails), that is a sink error like any other.
+func (r *envWriterRich) Flush() error {
+	r.FlushCalls++
+	if r.FlushFails {
+		return errSink
+	}
+	return nil
+}
 func (r *envWriterRich) ReadFrom(src io.Reader) (int64, error) {
 	var total int64
 	buf := make([]byte, 700)
